@@ -153,10 +153,28 @@ func (m *Machine) checkPlain(c *Term) (string, map[string]uint64) {
 	m.solver.Push()
 	m.solver.Assert(c)
 	r := m.solver.Check()
+	if m.solver.dead {
+		m.rebuildSolver()
+		return "unknown", nil
+	}
 	var mod map[string]uint64
 	if r == "sat" {
 		mod = m.solver.Model(m.nondets)
+		if m.solver.dead {
+			m.rebuildSolver()
+			return "unknown", nil
+		}
 	}
 	m.solver.Pop(1)
 	return r, mod
+}
+
+// rebuildSolver starts a fresh solver process after a hard timeout and restores the assertion stack from the path
+// condition (one push per conjunct, as takeCond does).
+func (m *Machine) rebuildSolver() {
+	m.solver = NewSolver(m.job.TimeoutMs)
+	for _, c := range m.pc {
+		m.solver.Push()
+		m.solver.Assert(c)
+	}
 }
